@@ -111,7 +111,7 @@ class Ctx:
         tmp = self.sub("tmp")
         cmd = ["java", "-XX:+UseParallelGC", "-Xmx" + heap, "-Xss256m", "-Djava.io.tmpdir=" + tmp,
                "-DTLA-Library=" + os.path.join(SPEC, "lib"), "-cp", JAR, "tlc2.TLC",
-               "-workers", str(workers), "-metadir", md, "-config", os.path.join(SPEC, cfg)]
+               "-noGenerateSpecTE", "-workers", str(workers), "-metadir", md, "-config", os.path.join(SPEC, cfg)]
         if simulate:
             cmd += ["-simulate", simulate]
         if depth:
